@@ -555,7 +555,6 @@ func (b *Bounder) minFacts(fo, fn BoundFacts, cap *Term) BoundFacts {
 	return out
 }
 
-
 // summary bounds the result of a call to a loop-free repository function with a single
 // return by bounding the returned value inside the callee and substituting the actual
 // arguments for the callee's parameters (terms mentioning other callee values are dropped).
